@@ -8,8 +8,11 @@
    No proofs here.
 
    Abstractions (each is named in the evidence file):
-   * z3 terms are the location expressions of Spec/StorageSpec.v; `simplify` is the
-     identity on denotations, so decoded keys are compared semantically with the code.
+   * z3 terms are the location expressions of Spec/StorageSpec.v; `simplify` is modelled by
+     `simp` (its structural effect on this grammar: constant folding under hashes,
+     flattening and constant-summing of additions); on key terms it is the identity on
+     denotations, so decoded keys are compared semantically with the code.
+   * ex.int_of uses path.concretization.substitution, modelled as the registered hashes.
    * `normalize` (re-association of Concat(Extract(255,8,op), op(Extract(7,0,..)))) is not
      modelled: it is denotation-preserving and only exercised by the correspondence run.
    * sorted(key=len, reverse=True) in the bvadd arm: Python's sort is stable, so with at
